@@ -187,8 +187,19 @@ class TypeApprox:
                 return " | ".join(names)  # type: ignore[arg-type]
         return None
 
+    refine = True  # isinstance() narrowing; callers asking "where does the value come from" switch it off
+
+    def declared(self, fi: FunctionInfo, e: ast.AST | None) -> str | None:
+        """Type as declared at the value's source, ignoring isinstance() narrowing on the way."""
+        old = self.refine
+        self.refine = False
+        try:
+            return self.of(fi, e)
+        finally:
+            self.refine = old
+
     def _name(self, fi: FunctionInfo, e: ast.Name, depth: int) -> str | None:
-        r = self._refined(fi, e)
+        r = self._refined(fi, e) if self.refine else None
         if r:
             return r
         f: FunctionInfo | None = fi
